@@ -155,6 +155,16 @@ class Server(object):
         sock.setblocking(True)
         self.logger.info("accepted %s with fd %s", addrinfo, sock.fileno())
         self.clients.add(sock)
+        if self._closed:
+            # close() ran while this connection was being accepted and may have walked the table before the
+            # socket was in it: nobody else is going to terminate this client
+            self.clients.discard(sock)
+            try:
+                sock.shutdown(socket.SHUT_RDWR)
+            except Exception:
+                pass
+            sock.close()
+            return
         self._accept_method(sock)
 
     def _accept_method(self, sock):
